@@ -172,6 +172,29 @@ def _i2b_folded(ctx):
     return None if sided else problems
 
 
+def r19_13(ctx) -> None:
+    """R19.13  `to_bytes` hands back its argument itself only when that is an (immutable) `bytes` object: everything else - text, numbers, and mutable
+    octet buffers such as `bytearray` / `memoryview` - becomes a new `bytes` value.  Key material, header segments and thumbprint inputs that went through
+    it cannot change under the library when the caller re-uses a buffer."""
+    eng = ctx.eng
+    fn = eng.prog.func("util:to_bytes")
+    p_ = fn.pos_params[0]
+    cfg = cfg_of(fn)
+    n = 0
+    for r in cfg.returns():
+        v = r.ast.value  # type: ignore[union-attr]
+        if not (isinstance(v, ast.Name) and v.id == p_):
+            continue
+        n += 1
+        tests = [t for t in cfg.nodes if t.kind == "test" and isinstance(t.ast, ast.Call) and isinstance(t.ast.func, ast.Name) and t.ast.func.id == "isinstance" and len(t.ast.args) == 2
+                 and norm(t.ast.args[0]) == p_ and norm(t.ast.args[1]) in ("bytes", "(bytes,)")
+                 and r not in cfg.reachable(cfg.entry, edge_filter=lambda a, b, lab, _t=t: not (a is _t and lab == "true"))]
+        ctx.check(bool(tests), "R19.13", fn, r.ast, f"{fn.short} :: returns its argument", "to_bytes returns its argument itself for something that is not known to be an immutable `bytes` object "
+                  "(a bytearray handed in stays shared with the caller: what was imported can change afterwards)", "return x only under isinstance(x, bytes); bytes(x) otherwise",
+                  construct="to_bytes identity return")
+    ctx.count("R19.13", n, 1, "returns of the argument itself in to_bytes")
+
+
 def r19_4_5(ctx) -> None:
     eng = ctx.eng
     P = eng.prog
@@ -405,10 +428,13 @@ def run(ctx) -> None:
     ctx.guard(r19_8)
     from .common import forwarding_discipline
     ctx.guard(forwarding_discipline, "R19.7", ['s', 'data'], 4)  # arguments are handed on under their own name (generic routing rule, rules/common.py)
+    ctx.guard(r19_13)
     ctx.guard(r19_1)
     ctx.guard(r19_2_3)
     ctx.guard(r19_4_5)
     from .c11 import r11_2
+    from .c07 import r07_2 as _r07_2
+    ctx.guard_as("R19.12", _r07_2)  # "JSON header encoding followed by decoding returns an equal object": what is encoded as the protected header IS the protected header given
     from .c11 import r11_3 as _r11_3
     ctx.guard_as("R19.11", _r11_3)  # "integers in JWKs ... round-trip exactly": EC x / y / d are written with the curve's coordinate length (leading zero octets kept)
     ctx.guard_as("R19.6", r11_2)  # RSA integers are exported through the minimal-length codec
